@@ -10,7 +10,7 @@ SHAPES = {
         "mlp": [dict(n=2, d=2, K=2, h=2), dict(n=2, d=1, K=3, h=2)],
         "sparse_mlp": [dict(n=2, d=2, K=2, h=2), dict(n=3, d=2, K=2, h=1)],
         "categorical": [dict(n=2, K=2), dict(n=3, K=3)],
-        "douglas": [dict(n=2, d=1, K=2, cuts=1), dict(n=2, d=2, K=2, cuts=1), dict(n=2, d=1, K=2, cuts=2)],
+        "douglas": [dict(n=2, d=1, K=2, cuts=1), dict(n=2, d=2, K=2, cuts=1), dict(n=2, d=1, K=2, cuts=2), dict(n=1, d=1, K=2, cuts=3)],
         "kernel_rim": [dict(N=3, K=2, idx=(0, 1, 2)), dict(N=3, K=2, idx=(2, 0, 1)), dict(N=3, K=2, idx=(1,)),
                        dict(N=3, K=2, idx=(2, 0))],
     },
